@@ -31,7 +31,7 @@ from segvc.unit import FunctionUnit, LoopSpec
 IT = "anyio/itertools.py"
 FN = "anyio/functools.py"
 SRC = DequeT(OBJ)  # the source iterator: what is still to come
-register_class("GenOut", {"out": ArrT(INT, OBJ), "n": INT, "pos": ArrT(INT, INT), "rank": ArrT(INT, INT)}, kind="env")
+register_class("GenOut", {"out": ArrT(INT, OBJ), "n": INT, "pos": ArrT(INT, INT), "rank": ArrT(INT, INT), "last": INT}, kind="env")
 OUT = z3.Int("generator_output")
 APP = z3.Function("APP", z3.IntSort(), z3.IntSort(), z3.IntSort())  # the binary callback
 APP1 = z3.Function("APP1", z3.IntSort(), z3.IntSort())  # a unary callback (starmap on the element)
@@ -164,7 +164,7 @@ class IterUnit(FunctionUnit):
     def after_resume(self, ip, what, payload):
         # A-private-iterator: the source, the output record and the local state are this generator's own
         h, b = H(ip.st), self.before
-        for key in [(SRC.cls, "lo"), (SRC.cls, "hi"), (SRC.cls, "data"), ("GenOut", "out"), ("GenOut", "n"), ("GenOut", "pos"), ("GenOut", "rank")]:
+        for key in [(SRC.cls, "lo"), (SRC.cls, "hi"), (SRC.cls, "data"), ("GenOut", "out"), ("GenOut", "n"), ("GenOut", "pos"), ("GenOut", "rank"), ("GenOut", "last")]:
             ip.st.assume(h.arr(*key) == b.arr(*key))
         ip.st.assume(h.arr("$", "alloc") == b.arr("$", "alloc"))
 
@@ -1327,3 +1327,101 @@ class IterateUnit(IterUnit):
 
 
 UNITS += [IterateUnit]
+
+
+# ---- cycle --------------------------------------------------------------------------------------------------------------------
+# The specification is the recursion  p_0 = 0,  p_{t+1} = p_t + 1 (or 0 after the last element),  out_t = x(p_t),  and "ends only
+# for an empty input".  It is checked as a *step obligation at every yield* (the value yielded now is the input element that
+# follows the one yielded before, cyclically); the loop invariants only carry the position of the last yield (ghost scalar).
+
+from segvc.core import ListT  # noqa: E402
+
+SAVED = ListT(OBJ)
+
+
+def saved_is_input(u, h, ref, n):
+    d = h.dq(SAVED.cls, ref)
+    q = z3.Int(h.st.uniq("q"))
+    return z3.And(ref > 0, ref != u.src.t, d.hi - d.lo == n, forall([q], z3.Implies(z3.And(d.lo <= q, q < d.hi), z3.Select(d.data, q) == u.x(q - d.lo)), patterns=[z3.Select(d.data, q)]))
+
+
+def last_pos(h):
+    return h.f("GenOut", "last", OUT)
+
+
+def cycle_phase1_inv(ip, env):
+    u = ip.ctx.unit
+    h = H(ip.st)
+    i = u.consumed(ip)
+    saved = ip.term(env.vars["saved"], SAVED)
+    return [("every_element_so_far_was_saved_and_yielded", z3.And(i >= 0, ip.ctx.loop_k <= u.hi0, out_n(h) == i, z3.Implies(i > 0, last_pos(h) == i - 1), saved_is_input(u, h, saved, i), u.out_inv_common(h)))]
+
+
+def cycle_outer_inv(ip, env):
+    u = ip.ctx.unit
+    h = H(ip.st)
+    saved = ip.term(env.vars["saved"], SAVED)
+    return [("whole_rounds_have_been_yielded", z3.And(u.n >= 1, out_n(h) > 0, last_pos(h) == u.n - 1, saved_is_input(u, h, saved, u.n), src_unchanged(u, h)))]
+
+
+def cycle_inner_inv(ip, env):
+    u = ip.ctx.unit
+    h = H(ip.st)
+    saved = ip.term(env.vars["saved"], SAVED)
+    j = ip.ctx.loop_k - h.dq(SAVED.cls, saved).lo
+    return [("a_round_has_been_yielded_up_to_the_current_element", z3.And(u.n >= 1, 0 <= j, j <= u.n, out_n(h) > 0, last_pos(h) == z3.If(j == 0, u.n - 1, j - 1), saved_is_input(u, h, saved, u.n), src_unchanged(u, h)))]
+
+
+class CycleUnit(GenUnit):
+    funcname = "cycle"
+
+    def make_args(self, ip):
+        self.new_source(ip)
+        self.gen_entry(ip)
+        self.phase2 = False
+        self.saved = None
+        return [self.src], {}
+
+    def make_list(self, ip, elems):
+        if elems:
+            raise Unsupported("non-empty list literal")
+        self.saved = lib.new_empty(ip, SAVED)
+        return self.saved
+
+    def do_yield(self, ip, v):
+        st = ip.st
+        n_out = st.get("GenOut", "n", OUT)
+        base = st.get(SAVED.cls, "lo", self.saved.t) if self.phase2 else self.lo0
+        p = ip.ctx.loop_k - base  # the input position the running loop stands on
+        last = st.get("GenOut", "last", OUT)
+        want = z3.If(n_out == 0, 0, z3.If(last + 1 < self.n, last + 1, 0))
+        ip.ctx.oblige("cycle/yield:every_yielded_value_is_the_input_element_following_the_previous_one_cyclically", z3.And(0 <= p, p < self.n, p == want, ip.term(v, OBJ) == self.x(p)), "post")
+        st.put("GenOut", "last", OUT, p)
+        return super().do_yield(ip, v)
+
+    def after_resume(self, ip, what, payload):
+        super().after_resume(ip, what, payload)
+        h, b = H(ip.st), self.before
+        for f_ in ("lo", "hi", "data"):  # the local list is the generator's own
+            ip.st.assume(h.arr(SAVED.cls, f_) == b.arr(SAVED.cls, f_))
+
+    def loop_spec(self, qualname, ordinal):
+        frame = {("GenOut", "out"), ("GenOut", "n"), ("GenOut", "pos"), ("GenOut", "last"), (SAVED.cls, "data"), (SAVED.cls, "hi"), (SAVED.cls, "cnt")}
+        if ordinal == 0:
+            return LoopSpec(cycle_phase1_inv, modifies=frame, local_types={"element": OBJ})
+        self.phase2 = True
+        if ordinal == 1:
+            return LoopSpec(cycle_outer_inv, modifies=None, local_types={"element": OBJ})
+        sp = LoopSpec(cycle_inner_inv, modifies=None, local_types={"element": OBJ})
+        sp.pins_container = True
+        return sp
+
+    def on_exit(self, ip, pre, exc, ret):
+        h = H(ip.st)
+        if exc is not None:
+            ip.ctx.oblige("cycle/post:never_raises_by_itself", z3.BoolVal(exc.pycls is not None and exc.pycls.__name__ == "CancelledError"), "post")
+            return
+        ip.ctx.oblige("cycle/post:ends_only_for_an_empty_input_and_yields_nothing_then", z3.And(self.n == 0, out_n(h) == 0), "post")
+
+
+UNITS += [CycleUnit]
